@@ -564,6 +564,8 @@ theorem Q_exploitFinish (c : Cfg) (n : Val) (s : St) (h : PInv c n s) : PInv c n
 theorem Q_exploitBody (c : Cfg) (n : Val) (s : St) (h : PInv c n s) : PInv c n (exploitBody c s) := by
   unfold exploitBody
   split
+  · apply Q_progress; qcl
+  split
   · exact h
   · rename_i a hacl
     have ha : a ∈ c.acls := List.mem_of_getElem? hacl
@@ -735,8 +737,12 @@ theorem C19_tap3_acl_in_order (c : Cfg) (s : St) (a : Acl) (cr : Cred) (ip : Val
   have pf : ∀ x : St, (progress x).chosen = x.chosen ∧ (progress x).curAcl = x.curAcl := by
     intro x; unfold progress; repeat' split
     all_goals simp [St.raise]
+  have hne : c.acls.isEmpty = false := by
+    cases hl : c.acls with
+    | nil => rw [hl] at ha; simp at ha
+    | cons _ _ => rfl
   unfold exploitBody
-  simp only [ha, hg, Option.bind_some, hi]
+  simp only [hne, Bool.false_eq_true, if_false, ha, hg, Option.bind_some, hi]
   unfold exploitAct
   simp only [hs, ne_eq, not_true_eq_false, if_false]
   unfold exploitFinish
